@@ -193,6 +193,23 @@ def extract(repo):
     if not re.search(r"q\.pop_front\(\s*\);\s*addLinkedList\(\s*qp\s*\);\s*return\s+qp\.ed", nb):
         raise ValueError("recursiveEntDescripIterator::next: FIFO pop / push-children / return-popped shape not recognised")
 
+    # --- EntityDescriptor::InitIAttrs: is every inverse attribute linked on its own, whatever happened to its siblings ?
+    edc = _strip_comments(rd("src/clstepcore/entityDescriptor.cc"))
+    iia = _body(edc, r"void\s+EntityDescriptor::InitIAttrs\s*\([^)]*\)\s*\{")
+    loop = _body(iia, r"while\s*\(\s*0\s*!=\s*\(\s*ia\s*=\s*iai\.NextInverse_attribute\(\)\s*\)\s*\)\s*\{")
+    if re.search(r"\binitIAttr\s*\(\s*ia\b", loop):
+        helper = _body(edc, r"void\s+initIAttr\s*\([^)]*\)\s*\{")
+        if "ExplicitAttr()" not in helper or "supertypesIterator" not in helper or helper.count("inverted_attr_(") < 2:
+            raise ValueError("initIAttr: own-attributes-then-supertypes search not recognised")
+        if re.search(r"\breturn\b|\bbreak\b", loop):
+            raise ValueError("InitIAttrs: the loop over the inverse attributes can be left early")
+        per_inverse = True
+    else:
+        if "supertypesIterator" not in loop or "inverted_attr_(" not in loop:
+            raise ValueError("InitIAttrs: shape not recognised")
+        # inlined search: a `return` inside the loop leaves the siblings declared later unlinked
+        per_inverse = not re.search(r"\breturn\b", loop)
+
     out = ["-- GENERATED by tools/extract.d/lazy.py from src/cllazyfile/*.cc, lazyRefs.h, include/cllazyfile/*.h",
            "namespace StepModel.Generated", "",
            "/-- delimiters `nextInstance` accepts after the entity keyword -/",
@@ -221,6 +238,8 @@ def extract(repo):
            f"def refsAggrAccumulates : Bool := {'true' if fresh_aggr else 'false'}",
            "/-- superInvAttrIter::next scans the supertype it arrives at (not the one supertypesIterator::next() leaves) -/",
            f"def superIterAdvances : Bool := {'true' if iter_adv else 'false'}",
+           "/-- EntityDescriptor::InitIAttrs links every inverse attribute on its own (the loop is never left early) -/",
+           f"def initIAttrsPerInverse : Bool := {'true' if per_inverse else 'false'}",
            "/-- loadInstance: inverse attributes are resolved only when no instance is half-read -/",
            f"def refsDeferred : Bool := {'true' if deferred else 'false'}",
            "", "end StepModel.Generated", ""]
